@@ -35,7 +35,9 @@ def shanks_analysis(e0, e1, e2):
 
     Returns a dict: S (Fraction or None), corr = 1/sss (Fraction or None), kappa (Fraction or
     None), eps_guard / irregular_guard in {'fired', 'clear', 'borderline'} and T, the rounding
-    unit  eps*[max|e_i| (1 + kappa) + |1/sss| + |S|]  (Fraction, None if S is undefined).
+    unit  eps*[max|e_i| (1 + kappa) + |1/sss| + |S|]  (Fraction, None if S is undefined);
+    kappa_box / T_box: the same with kappa maximised over the rounding box of the inputs
+    (None when ``resolved`` is False).
     """
     f0, f1, f2 = F(e0), F(e1), F(e2)
     d1, d2 = f1 - f0, f2 - f1
@@ -45,7 +47,8 @@ def shanks_analysis(e0, e1, e2):
     g2 = 'fired' if d2 == 0 else _band(abs(d2), tol2)
     order = {'fired': 0, 'borderline': 1, 'clear': 2}
     eps_guard = min((g1, g2), key=order.get)
-    out = dict(d1=d1, d2=d2, S=None, corr=None, kappa=None, T=None, sss=None,
+    out = dict(d1=d1, d2=d2, S=None, corr=None, kappa=None, T=None, sss=None, resolved=False,
+               kappa_box=None, T_box=None,
                eps_guard=eps_guard, irregular_guard='fired')
     if d1 == 0 or d2 == 0 or d1 == d2:
         return out          # sss is 0 or undefined: the irregular guard (or the eps guard) applies
@@ -57,6 +60,16 @@ def shanks_analysis(e0, e1, e2):
     out.update(S=S, corr=corr, kappa=kappa, sss=sss,
                T=EPS * (emax * (1 + kappa) + abs(corr) + abs(S)),
                irregular_guard=_band(abs(sss * f1), IRREGULAR))
+    # The same conditioning taken at the worst point of the input-rounding box |de_i| <= u |e_i|:
+    # each difference moves by at most p1 = 2u*emax and d2 - d1 by at most p2 = 4u*emax.  When
+    # |d2 - d1| <= 2 p2 the rounded terms do not resolve the curvature and no bound exists.
+    p1, p2 = 2 * U * emax, 4 * U * emax
+    gap = abs(d2 - d1)
+    out['resolved'] = gap > 2 * p2
+    if out['resolved']:
+        kbox = ((abs(d1) + p1) ** 2 + (abs(d2) + p1) ** 2) / ((gap - p2) ** 2)
+        out['kappa_box'] = kbox
+        out['T_box'] = EPS * (emax * (1 + kbox) + abs(corr) + abs(S))
     return out
 
 
